@@ -400,7 +400,11 @@ def write_evidence(prop, tier, verif_seed, conf, workers, agg, det, wall, n_viol
     faults['F4'].update(armed=st.get('fault_F4_armed', 0), fired=st.get('fault_F4_fired', 0),
                         fired_by_site={s: st.get('fault_F4_fired_' + s, 0) for s in
                                        ('on_status_overflow', 'on_status_underflow', 'on_status_inaccuracy', 'on_value_change')})
+    faults['F7'] = {'what': 'callback that unregisters itself while being notified',
+                    'armed': st.get('fault_F7_unregister_armed', 0), 'fired': st.get('fault_F7_unregister_fired', 0)}
     faults['F5']['template_flips'] = st.get('fault_F5_template_flip', 0)
+    faults['F5']['config_template_flips'] = st.get('fault_F5_config_template_flip', 0)
+    faults['F6']['caller_config_mutations'] = st.get('fault_F6_caller_config_mutated', 0)
     faults['F6']['container_mutations'] = st.get('fault_F6_container_mutated', 0)
     ev = {
         'property_id': prop, 'tier': tier, 'seed': verif_seed, 'level': 'exploration',
